@@ -803,10 +803,66 @@ pub fn c20_convenience(rep: &mut Report, pats: &[Vec<u8>]) {
             let _ = p.match_kind();
             let _ = p.memory_usage();
         }
+        // Builders obtained through the `Default` trait (what `T::default()`,
+        // `mem::take(&mut builder)`, `unwrap_or_default()` and a `#[derive(Default)]`
+        // on a struct holding a builder give) are builders like any other.
+        {
+            let mut kept = packed::Builder::new();
+            kept.extend(pats.iter());
+            let taken = std::mem::take(&mut kept); // `kept` is now a Default builder
+            let mut pd = packed::Builder::default();
+            pd.extend(pats.iter());
+            kept.extend(pats.iter());
+            let mut pn = packed::Builder::new();
+            pn.extend(pats.iter());
+            for (what, b) in [("packed::Builder::default()", &pd), ("the builder left by mem::take", &kept), ("the builder moved out by mem::take", &taken)] {
+                if (b.len(), b.minimum_len()) != (pn.len(), pn.minimum_len()) {
+                    return Err(format!("{}: len()/minimum_len() = {:?}, a builder from new() with the same patterns: {:?}", what, (b.len(), b.minimum_len()), (pn.len(), pn.minimum_len())));
+                }
+                let (x, y) = (b.build(), pn.build());
+                if x.is_some() != y.is_some() {
+                    return Err(format!("{} and Builder::new() disagree on buildability", what));
+                }
+                if let (Some(x), Some(y)) = (x, y) {
+                    let hay: Vec<u8> = pats.iter().flat_map(|p| p.iter().copied().chain(std::iter::once(b'-'))).take(400).collect();
+                    let mx: Vec<(usize, usize, usize)> = x.find_iter(&hay).map(|m| (m.pattern().as_usize(), m.start(), m.end())).collect();
+                    let my: Vec<(usize, usize, usize)> = y.find_iter(&hay).map(|m| (m.pattern().as_usize(), m.start(), m.end())).collect();
+                    if mx != my || x.minimum_len() != y.minimum_len() {
+                        return Err(format!("{} builds a searcher that differs from Builder::new()'s", what));
+                    }
+                }
+            }
+            let meta = |a: &AhoCorasick| (a.patterns_len(), a.kind(), a.match_kind(), a.start_kind(), a.memory_usage(), if pats.is_empty() { (0, 0) } else { (a.min_pattern_len(), a.max_pattern_len()) });
+            let ad = aho_corasick::AhoCorasickBuilder::default().build(pats).map_err(|e| format!("AhoCorasickBuilder::default(): {}", e))?;
+            if meta(&ad) != meta(&b) {
+                return Err(format!("AhoCorasickBuilder::default() builds {:?}, AhoCorasick::builder() {:?}", meta(&ad), meta(&b)));
+            }
+            let nd = nfa::noncontiguous::Builder::default().build(pats).map_err(|e| e.to_string())?;
+            let cd = nfa::contiguous::Builder::default().build(pats).map_err(|e| e.to_string())?;
+            let dd = dfa::Builder::default().build(pats).map_err(|e| e.to_string())?;
+            use aho_corasick::automaton::Automaton;
+            for (what, x, y) in [
+                ("noncontiguous::Builder", (nd.patterns_len(), nd.memory_usage(), nd.match_kind()), (n2.patterns_len(), n2.memory_usage(), n2.match_kind())),
+                ("contiguous::Builder", (cd.patterns_len(), cd.memory_usage(), cd.match_kind()), (c2.patterns_len(), c2.memory_usage(), c2.match_kind())),
+                ("dfa::Builder", (dd.patterns_len(), dd.memory_usage(), dd.match_kind()), (d2.patterns_len(), d2.memory_usage(), d2.match_kind())),
+            ] {
+                if x != y {
+                    return Err(format!("{}::default() builds {:?}, ::new() {:?}", what, x, y));
+                }
+            }
+            // the documented defaults of the option types
+            if MatchKind::default() != MatchKind::Standard || StartKind::default() != StartKind::Unanchored {
+                return Err("MatchKind::default() / StartKind::default() are not Standard / Unanchored".into());
+            }
+            if !matches!(packed::MatchKind::default(), packed::MatchKind::LeftmostFirst) {
+                return Err("packed::MatchKind::default() is not LeftmostFirst".into());
+            }
+        }
         Ok(())
     });
     rep.eval();
     rep.tally("convenience_constructor_sets");
+    rep.tally("default_trait_builder_sets");
     match r {
         Err(p) => rep.violation("convenience:panic", format!("a convenience constructor panicked: {}", p), cj()),
         Ok(Err(e)) => rep.violation("convenience:mismatch", e, cj()),
